@@ -10,13 +10,12 @@ package relmod
 // during the call or a location listed under `modifies` (the Schema's row slices and their backing arrays). The model
 // (*sysl.Module and everything below it) and every position path that already exists are therefore never written.
 
-// Helpers that only read the model and build fresh values (they may panic on attribute shapes they do not know).
+// Helpers that only read the model and build fresh values. tags / attrToValue panic on attribute shapes they do not
+// know: those explicit panics are obligations of the panic class (known findings of C17).
 //@ func tags
 //@   pure
-//@   maypanic
 //@ func annos
 //@   pure
-//@   maypanic
 //@   ensures result != nil
 //@ func relmodSourceContexts
 //@   pure
@@ -25,10 +24,8 @@ package relmod
 //@   loop 0 invariant [own-array] base(srcs) == 0 || fresh(srcs)
 //@ func relmodSourceContext
 //@   pure
-//@   maypanic
 //@ func parseFieldType
 //@   pure
-//@   maypanic
 //@ func parseRestPath
 //@   pure
 //@   ensures [never-fails] result1 == nil
